@@ -266,7 +266,7 @@ func StructDomain(s *idl.Struct, depth int, rich bool) []*Val {
 		var out []*Val
 		for i := range s.Fields {
 			for _, v := range doms[i] {
-				if v != nil {
+				if v != nil && v.T != "n" { // a member holding nil is not set
 					out = append(out, Obj().Set(ids[i], v))
 				}
 			}
